@@ -46,6 +46,7 @@
     0x00001000 /* ptrdiff_t (d, i, u, o, x, X); ptrdiff_t* (n) */
 #define OPS_LEN_LONGFP 0x00002000 /* long double (f, F, e, E, g, G, a, A) */
 #define OPS_SPEC_UPPER_CASE 0x00004000 /* specifier is tall */
+#define OPS_SPEC_POINTER 0x00008000    /* %p: prefix for a null pointer too */
 
 /**
  * Options for print_s
@@ -119,7 +120,8 @@ static int print_i(void (*printchar_handler)(void *d, int c),
     prefix = is_signed && ((long long int)u < 0)         ? (u = -u, "-")
              : is_signed && (ops & OPS_FLAG_WITH_SIGN)   ? "+"
              : is_signed && (ops & OPS_FLAG_EXTRA_SPACE) ? " "
-             : (base == 16) && (ops & OPS_FLAG_WITH_SPEC)
+             : (base == 16) && (ops & OPS_FLAG_WITH_SPEC) &&
+                     (u || (ops & OPS_SPEC_POINTER))
                  ? ops & OPS_SPEC_UPPER_CASE ? "0X" : "0x"
                  : "";
     pc = 0;
@@ -612,7 +614,8 @@ int __printf(void (*printchar_handler)(void *d, int c),
                           0,
                           width,
                           sizeof tmp.vp * 2,
-                          ops | (OPS_FLAG_WITH_SPEC | OPS_PREC_IS_GIVEN),
+                          ops | (OPS_FLAG_WITH_SPEC | OPS_PREC_IS_GIVEN |
+                                 OPS_SPEC_POINTER),
                           16);
             break;
         case 'n':
